@@ -2328,6 +2328,46 @@ impl World {
                 }
             }
         }
+        // a VALID block whose text is not in the compact form the library writes (another implementation, a pretty
+        // printer): it is applied where it is stored, and meld passes it on byte for byte under the same name
+        {
+            let blocks: Vec<&String> = keys.iter().filter(|k| k.ends_with(".delta")).collect();
+            if !blocks.is_empty() {
+                let b = (*g.pick(&blocks)).clone();
+                let body = &items[&b];
+                if body.first() == Some(&b'{') {
+                    let mut nc = vec![b'{', b' '];
+                    nc.extend_from_slice(&body[1..]);
+                    let idx = b.split('-').next().unwrap_or("1");
+                    let name = format!("{}-{}.delta", idx, digest_bytes(&nc));
+                    let st = SimStore::from_items(items.clone());
+                    st.put_raw(&name, nc.clone());
+                    if let Ok(live) = Melda::new(st.dyn_adapter()) {
+                        let rx_store = SimStore::new();
+                        if let Ok(mut rx) = Melda::new(rx_store.dyn_adapter()) {
+                            let _ = catch_unwind(AssertUnwindSafe(|| rx.meld(&live)));
+                            *self.stats.entry("meld_of_non_canonical_block".into()).or_insert(0) += 1;
+                            let applied_at_source = live.verif_delta_status().get(name.trim_end_matches(".delta")).map(|s| *s == "applied").unwrap_or(false);
+                            for (k, v) in rx_store.snapshot() {
+                                let good = if let Some(d) = k.strip_suffix(".delta") {
+                                    d.splitn(2, '-').nth(1).map(|x| digest_bytes(&v) == x).unwrap_or(false)
+                                } else if let Some(d) = k.strip_suffix(".pack") {
+                                    digest_bytes(&v) == d
+                                } else {
+                                    true
+                                };
+                                if !good {
+                                    fails.push(("C11", format!("meld stored item {} whose bytes do not hash to its name (source holds a valid block with non-canonical text)", k)));
+                                }
+                            }
+                            if applied_at_source && !rx_store.snapshot().contains_key(&name) {
+                                fails.push(("C01", format!("meld did not transfer the valid block {} (non-canonical text)", name)));
+                            }
+                        }
+                    }
+                }
+            }
+        }
         // (blocks too: a block damaged after it was loaded must not be passed on by meld under its old name)
         let packs: Vec<&String> = keys.iter().filter(|k| k.ends_with(".pack") || k.ends_with(".delta")).collect();
         if !packs.is_empty() {
